@@ -18,7 +18,47 @@ def comparison(cond):
         return (REL_BIN[cond[1]], cond[2], cond[3])
     if cond[0] == "call" and cond[1].fn in REL_CALL and len(cond[2]) == 2:
         return (REL_CALL[cond[1].fn], cond[2][0], cond[2][1])
+    c = strip(cond)
+    if c[0] == "call" and c[1].fn in OPTION_AND and len(c[2]) == 2:
+        return _comparison_in_closure(c)
     return None
+
+
+# `opt.is_some_and(|x| a REL x)`: the nested `if let Some(x) = opt { if a REL x {..} }` in one expression.  Read as the comparison
+# with x = the payload and the captures replaced by what was captured; as with the nested form, the false edge also stands for None.
+OPTION_AND = {"core::option::Option::<T>::is_some_and": "Some", "core::result::Result::<T, E>::is_ok_and": "Ok"}
+
+
+def _comparison_in_closure(c, depth=0):
+    clo = strip(c[2][1])
+    if clo[0] != "agg" or clo[1].get("agg") != "closure" or not clo[1].get("def") or depth > 2:
+        return None
+    cb = None
+    for cr in getattr(c[1].body.crate, "siblings", [c[1].body.crate]):
+        cb = cb or cr.bodies.get(clo[1]["def"])
+    if cb is None or cb.is_coroutine:
+        return None
+    rets = cb.return_defs()
+    if len(rets) != 1:
+        return None
+    inner = comparison(rets[0][1])
+    if not inner:
+        return None
+    names = [cap.get("name") for cap in cb.captures]
+    payload = ("field", ("downcast", c[2][0], OPTION_AND[c[1].fn]), 0)
+
+    def sub(e):
+        if isinstance(e, tuple):
+            if len(e) >= 2 and e[0] == "arg" and e[1] == 2:
+                return payload
+            if len(e) == 3 and e[0] == "field" and e[1] == ("env",) and str(e[2]) in names and names.index(str(e[2])) < len(clo[2]):
+                return clo[2][names.index(str(e[2]))]
+            return tuple(sub(x) for x in e)
+        if isinstance(e, list):
+            return [sub(x) for x in e]
+        return e
+
+    return (inner[0], sub(inner[1]), sub(inner[2]))
 
 
 def rel_on_edge(rel, truth):
